@@ -37,6 +37,8 @@ HelperCases ==
     \cup {[s |-> HelperC(h, a), x |-> x, o |-> EmptyD] : h \in BinSeqInput, a \in {I(0), I(2), I(5)}, x \in SeqArgs}
     \cup {[s |-> HelperO(h, pP), x |-> x, o |-> Dv([k \in {"P"} |-> a])] : h \in BinSeqInput, a \in {I(0), I(2), I(5)}, x \in SeqArgs}
     \cup {[s |-> HelperO(h, pP), x |-> x, o |-> EmptyD] : h \in {"add", "get"}, x \in {I(1)} \cup SeqArgs}
+    \cup {[s |-> HelperC("add", a), x |-> x, o |-> EmptyD] : a \in {Str("ab"), Lv(<<I(9)>>)}, x \in {Str("xy"), Lv(<<I(1), I(2)>>)}}
+    \cup {[s |-> HelperO("add", pP), x |-> x, o |-> Dv([k \in {"P"} |-> a])] : a \in {Str("ab"), Lv(<<I(9)>>)}, x \in {Str("xy"), Lv(<<I(1), I(2)>>)}}
     \cup {[s |-> Helper0(h), x |-> x, o |-> EmptyD] : h \in Unary, x \in {I(0), I(3), Nv} \cup SeqArgs}
 
 Record(term, x, o) ==
